@@ -353,6 +353,7 @@ struct lkcd_priv {
 	char format[MAX_FORMAT_NAME];
 };
 
+static void lkcd_attr_cleanup(struct attr_dict *dict);
 static void lkcd_cleanup(struct kdump_shared *shared);
 
 static struct pfn_block **
@@ -1019,6 +1020,7 @@ open_common(kdump_ctx_t *ctx, void *hdr)
 	return KDUMP_OK;
 
   err_free:
+	lkcd_attr_cleanup(ctx->dict);
 	lkcd_cleanup(ctx->shared);
 	return ret;
 }
